@@ -58,6 +58,35 @@ def cases(tier, seed):
                 unordered = any(s in ('*', '**') for s in steps)
                 add(p, d, ('ex', 'unordered' if unordered else 'ordered'))
                 add(p + '[]', d, ('ex', 'unordered' if unordered else 'ordered'))
+    # systematic nested-array shapes: T ::= {"b": n} | {"b": [n, n]} | {} | {"b": {"c": n}} | [T, ...]; document {"a": T}
+    leaves = [{'b': 1}, {'b': [2, 3]}, {}, {'b': {'c': 4}}, {'c': 5}]
+    def shapes(depth):
+        if depth == 0:
+            return list(leaves)
+        inner = shapes(depth - 1)
+        out_ = list(leaves)
+        pool2 = inner if len(inner) <= 12 else rng.sample(inner, 12)
+        for k in (1, 2, 3):
+            combos = list(itertools.product(pool2, repeat=k))
+            if len(combos) > (60 if tier == 'quick' else 600):
+                combos = rng.sample(combos, 60 if tier == 'quick' else 600)
+            out_ += [list(c) for c in combos]
+        return out_
+    counter = [0]
+    def renumber(t):
+        if isinstance(t, dict):
+            return {k: renumber(v) for k, v in t.items()}
+        if isinstance(t, list):
+            return [renumber(x) for x in t]
+        counter[0] += 1
+        return counter[0]
+    for t in shapes(3):
+        counter[0] = 0
+        d = {'a': renumber(t)}
+        for e in ('a.b', 'a.b[]', 'a.b.c', '$count(a.b)', 'a.*'):
+            add(e, d, ('nested-shape', 'unordered' if '*' in e else 'ordered'))
+        add('b', d['a'], ('nested-shape',))
+        add('b[]', d['a'], ('nested-shape',))
     # random paths of 1..6 steps
     for i in range(2500 if tier == 'quick' else 120000):
         L = rng.randint(1, 6)
